@@ -21,6 +21,7 @@
   for update handlers and for watching/spawning/indexing causes.
 -/
 import Kopf.Lemmas.C15_Match
+import Kopf.Model.C15_Selector
 namespace Kopf.C15
 
 variable {V : Type} [PyVal V]
@@ -464,6 +465,149 @@ theorem stealth_partial (r : Registry V) (cs : Causes V) (o : Obj) (stopped : Li
     · simp only [List.mem_singleton] at he; subst he; rfl
     · simp at he
 
+
+-- ---------------------------------------------------------------------------------------------
+-- the resource selector (docs/resources.rst), after the positional notation has been parsed
+/- FULL STATEMENT: theorem selector_check_iff (s r) : s.check r = true ↔ SelectorDoc s r.
+   FALSE in one way: `kopf.EVERYTHING` and callable selectors also skip the (preferred-version)
+   events of the API group `events.k8s.io`, while the docs exclude "core v1 events" only
+   (`selector_gap_events_k8s_witness`, finding C15-F4, low severity: the newer events API carries
+   the same implicitly produced events, so the exclusion is deliberate but undocumented). -/
+
+/-- "it can be any name: plural, singular, kind, or a short name" -/
+def NamedAs (r : Resource) (n : String) : Prop :=
+  r.kind = some n ∨ r.plural = n ∨ r.singular = some n ∨ n ∈ r.shortcuts
+
+/-- "Core v1 events" -/
+def CoreV1Events (r : Resource) : Prop := r.group = "" ∧ r.version = "v1" ∧ NamedAs r "events"
+
+/-- docs/resources.rst: by-name, keyword, by-category, catch-all and callable selectors -/
+structure SelectorDoc (s : Selector) (r : Resource) : Prop where
+  group : ∀ g, s.group = some g → r.group = g
+  version : ∀ v, s.version = some v → r.version = v
+  /-- "the preferred API version of that API group is used … This does not apply to callable selectors" -/
+  preferred : s.version = none → s.fn = none → r.preferred = true
+  kind : ∀ n, s.kind = some n → r.kind = some n
+  plural : ∀ n, s.plural = some n → r.plural = n
+  singular : ∀ n, s.singular = some n → r.singular = some n
+  shortcut : ∀ n, s.shortcut = some n → n ∈ r.shortcuts
+  category : ∀ n, s.category = some n → n ∈ r.categories
+  name : ∀ n, s.anyName = some (.name n) → NamedAs r n
+  /-- "Core v1 events are excluded from EVERYTHING and from callable selectors" -/
+  everything : s.anyName = some .everything → ¬CoreV1Events r
+  callable : ∀ f, s.fn = some f → f r = true ∧ ¬CoreV1Events r
+
+/-- the code's conjunction, conjunct by conjunct, in declarative form (bridging lemma) -/
+theorem checkWith_iff (s : Selector) (r : Resource) (ev evk : Bool) :
+    s.checkWith ev evk r = true ↔
+      (∀ g, s.group = some g → r.group = g) ∧
+      ((∀ v, s.version = some v → r.version = v) ∧ (s.version = none → s.fn = none → r.preferred = true)) ∧
+      (∀ n, s.kind = some n → r.kind = some n) ∧ (∀ n, s.plural = some n → r.plural = n) ∧
+      (∀ n, s.singular = some n → r.singular = some n) ∧ (∀ n, s.category = some n → n ∈ r.categories) ∧
+      (∀ n, s.shortcut = some n → n ∈ r.shortcuts) ∧
+      ((∀ n, s.anyName = some (.name n) → NamedAs r n) ∧
+        (s.anyName = some .everything → ev = false ∧ evk = false)) ∧
+      (∀ f, s.fn = some f → f r = true ∧ ev = false ∧ evk = false) := by
+  have hany : anyCore
+        { anyNone := s.anyName.isNone
+          eqKind := (optEqOpt (match s.anyName with | some (.name n) => some n | _ => none) r.kind).holds
+          eqPlural := (optEq (match s.anyName with | some (.name n) => some n | _ => none) r.plural).holds
+          eqSingular := (optEqOpt (match s.anyName with | some (.name n) => some n | _ => none) r.singular).holds
+          inShortcuts := (optIn (match s.anyName with | some (.name n) => some n | _ => none) r.shortcuts).holds
+          isEverything := match s.anyName with | some .everything => true | _ => false
+          events := ev, eventsK8s := evk } = true ↔
+      ((∀ n, s.anyName = some (.name n) → NamedAs r n) ∧
+        (s.anyName = some .everything → ev = false ∧ evk = false)) := by
+    cases han : s.anyName with
+    | none => simp [anyCore]
+    | some a =>
+      cases a with
+      | name n =>
+        have := named_iff n r.kind r.singular r.plural r.shortcuts
+        simp only [anyCore, Option.isNone_some, Bool.false_or, Bool.false_and, Bool.or_false, this,
+          Option.some.injEq, AnyName.name.injEq, forall_eq', reduceCtorEq, false_implies, and_true, NamedAs]
+      | everything =>
+        simp [anyCore, optEqOpt, optEq, optIn]
+  have hfn : fnCore { fnNone := s.fn.isNone, result := match s.fn with | some f => f r | none => false,
+                      events := ev, eventsK8s := evk } = true ↔
+      (∀ f, s.fn = some f → f r = true ∧ ev = false ∧ evk = false) := by
+    cases s.fn <;> simp [fnCore, and_assoc]
+  have hver := version_iff s.version r.version r.preferred s.fn.isNone
+  simp only [Option.isNone_iff_eq_none] at hver
+  simp only [Selector.checkWith, checkCore, Bool.and_eq_true, optEq_iff, optEqOpt_iff, optIn_iff]
+  constructor
+  · rintro ⟨⟨⟨⟨⟨⟨⟨⟨h1, h2⟩, h3⟩, h4⟩, h5⟩, h6⟩, h7⟩, h8⟩, h9⟩
+    exact ⟨h1, hver.1 h2, h3, h4, h5, h6, h7, hany.1 h8, hfn.1 h9⟩
+  · rintro ⟨h1, h2, h3, h4, h5, h6, h7, h8, h9⟩
+    exact ⟨⟨⟨⟨⟨⟨⟨⟨h1, hver.2 h2⟩, h3⟩, h4⟩, h5⟩, h6⟩, h7⟩, hany.2 h8⟩, hfn.2 h9⟩
+
+theorem isEvents_iff (r : Resource) : isEvents r = true ↔ CoreV1Events r := by
+  rw [isEvents, checkWith_iff]
+  constructor
+  · rintro ⟨h1, ⟨h2, _⟩, _, _, _, _, _, ⟨h8, _⟩, _⟩
+    exact ⟨h1 "" rfl, h2 "v1" rfl, h8 "events" rfl⟩
+  · rintro ⟨g, v, n⟩
+    refine ⟨fun x e => by cases e; exact g, ⟨fun x e => by cases e; exact v, fun e => by cases e⟩,
+      (fun x e => by cases e), (fun x e => by cases e), (fun x e => by cases e), (fun x e => by cases e),
+      (fun x e => by cases e), ⟨fun x e => by cases e; exact n, fun e => by cases e⟩, fun f e => by cases e⟩
+
+/-- the selector criterion = the documented one, except for the undocumented `events.k8s.io` exclusion -/
+theorem selector_check_iff_partial (s : Selector) (r : Resource)
+    (hk8s : isEventsK8s r = true → s.anyName ≠ some .everything ∧ s.fn = none) :
+    s.check r = true ↔ SelectorDoc s r := by
+  have hev := isEvents_iff r
+  rw [Selector.check, checkWith_iff]
+  constructor
+  · rintro ⟨h1, ⟨h2, h2'⟩, h3, h4, h5, h6, h7, ⟨h8, h8'⟩, h9⟩
+    refine ⟨h1, h2, h2', h3, h4, h5, h7, h6, h8, ?_, ?_⟩
+    · intro e hc; rw [← hev] at hc; simp [hc] at h8' ; exact h8' e
+    · intro f e
+      obtain ⟨a, b, _⟩ := h9 f e
+      exact ⟨a, fun hc => by rw [← hev] at hc; simp [hc] at b⟩
+  · intro d
+    have nev : (s.anyName = some .everything ∨ s.fn ≠ none) → isEvents r = false ∧ isEventsK8s r = false := by
+      intro hx
+      constructor
+      · cases h : isEvents r with
+        | false => rfl
+        | true =>
+          rcases hx with e | e
+          · exact absurd (hev.1 h) (d.everything e)
+          · cases hf : s.fn with
+            | none => exact absurd hf e
+            | some f => exact absurd (hev.1 h) (d.callable f hf).2
+      · cases h : isEventsK8s r with
+        | false => rfl
+        | true =>
+          obtain ⟨n1, n2⟩ := hk8s h
+          rcases hx with e | e
+          · exact absurd e n1
+          · exact absurd n2 e
+    refine ⟨d.group, ⟨d.version, d.preferred⟩, d.kind, d.plural, d.singular, d.category, d.shortcut,
+      ⟨d.name, fun e => nev (Or.inl e)⟩, ?_⟩
+    intro f e
+    obtain ⟨e1, e2⟩ := nev (Or.inr (by simp [e]))
+    exact ⟨(d.callable f e).1, e1, e2⟩
+
+/-- by-name, keyword and by-category selectors (no catch-all marker, no callable): no guard at all -/
+theorem selector_check_iff_named (s : Selector) (r : Resource)
+    (hn : s.anyName ≠ some .everything) (hf : s.fn = none) : s.check r = true ↔ SelectorDoc s r :=
+  selector_check_iff_partial s r (fun _ => ⟨hn, hf⟩)
+
+omit [PyVal V] in
+/-- the handler-level criterion: `_matches_resource` is "no selector (sub-handler) or the documented
+    selector holds" — this is what the opaque `Handler.selector : Option Bool` of `match` stands for -/
+theorem resource_criterion_doc (h : Handler V) (sel : Option Selector) (r : Resource)
+    (hsel : h.selector = sel.map (·.check r))
+    (hk8s : ∀ s, sel = some s → isEventsK8s r = true → s.anyName ≠ some .everything ∧ s.fn = none) :
+    matchesResource h = true ↔ ∀ s, sel = some s → SelectorDoc s r := by
+  rw [matchesResource_iff, hsel]
+  cases sel with
+  | none => simp
+  | some s =>
+    simp only [Option.map_some, Option.some.injEq, forall_eq']
+    rw [← selector_check_iff_partial s r (hk8s s rfl)]
+
 -- ---------------------------------------------------------------------------------------------
 -- witnesses of the three gaps (each is replayed on the real code from corpus/C15/F1..F3, d06)
 -- and non-vacuity examples
@@ -603,6 +747,36 @@ theorem stealth_blocked_witness :
 -- a carried patch also postpones the handling of an object that DOES match (exit to PATCHing first)
 example : cycle wR (wCs (some "v")) ⟨false, false, true, true, true⟩ [] = [Effect.carried] ∧
     cycle wR (wCs (some "v")) ⟨false, false, true, true, false⟩ [] = [Effect.handle ["h"]] := by decide
+
+def kex : Resource :=
+  { group := "kopf.dev", version := "v1", plural := "kopfexamples", kind := some "KopfExample",
+    singular := some "kopfexample", shortcuts := ["kex"], categories := ["all"], preferred := true }
+def k8sEvents : Resource :=
+  { group := "events.k8s.io", version := "v1", plural := "events", kind := some "Event",
+    singular := some "event", shortcuts := ["ev"], categories := [], preferred := true }
+
+/-- C15-F4: `kopf.EVERYTHING` does not select the events of `events.k8s.io`, although only the
+    core v1 events are documented as excluded -/
+theorem selector_gap_events_k8s_witness :
+    ∃ (s : Selector) (r : Resource), s.check r = false ∧ SelectorDoc s r := by
+  refine ⟨{ anyName := some .everything }, k8sEvents, by decide, ?_⟩
+  refine ⟨(fun _ e => by cases e), (fun _ e => by cases e), (fun _ _ => rfl), (fun _ e => by cases e),
+    (fun _ e => by cases e), (fun _ e => by cases e), (fun _ e => by cases e), (fun _ e => by cases e),
+    (fun _ e => by cases e), ?_, (fun _ e => by cases e)⟩
+  intro _ hc; exact absurd hc.1 (by decide)
+
+-- non-vacuity of `selector_check_iff_*`: ('kopf.dev', 'kex') and kind='KopfExample' select the
+-- resource, ('kopf.dev/v2', …) and a non-preferred version do not; EVERYTHING selects it, and core
+-- v1 events are skipped by EVERYTHING but selected by name
+example : ({ group := some "kopf.dev", anyName := some (.name "kex") } : Selector).check kex = true ∧
+    ({ kind := some "KopfExample" } : Selector).check kex = true ∧
+    ({ group := some "kopf.dev", version := some "v2", anyName := some (.name "kex") } : Selector).check kex = false ∧
+    ({ anyName := some (.name "kex") } : Selector).check { kex with preferred := false } = false ∧
+    ({ anyName := some .everything } : Selector).check kex = true ∧
+    ({ anyName := some .everything } : Selector).check
+      { k8sEvents with group := "", categories := [] } = false ∧
+    eventsSel.check { k8sEvents with group := "" } = true ∧
+    isEventsK8s kex = false := by decide
 
 end Witnesses
 
